@@ -143,6 +143,6 @@ func vfRunC07(c vfC07Case) *kit.Result {
 
 func TestVF_C07(t *testing.T) {
 	kit.Drive(t, "C07", "TestVF_C07",
-		"generated: resolution 3x3..12x10 (and a 160x120 class), edge 0-3, temp-thresh / delta-thresh from boundary-rich sets, count-thresh 1..interior size, gap 1-6, warmer-only, one-diff; FFC-free streams of 1-40 frames built by mutating the previous frame at a few interior/border pixels with values from {0,T-1,T,T+1,T+D-1,T+D,T+D+1,65535,...}, camera resets in between. Oracle: reference detector written from the statement, compared with Detect() per frame and with the MotionDetected callbacks of a MotionProcessor. Non-trivial: stream with both outcomes in which some frame has a qualifying-pixel count in {count-thresh-1, count-thresh} or a pixel difference in {D, D+1} or a value exactly at temp-thresh.",
+		"generated: resolution 3x3..12x10 (and a 160x120 class), edge 0-3, temp-thresh / delta-thresh from boundary-rich sets (delta-thresh 65534 / 65535 in one case in 10), count-thresh 1..interior size, gap 1-6, warmer-only, one-diff; FFC-free streams of 1-40 frames built by mutating the previous frame at a few interior/border pixels with values from {0,T-1,T,T+1,T+D-1,T+D,T+D+1,65535,...}, camera resets in between. Oracle: reference detector written from the statement, compared with Detect() per frame and with the MotionDetected callbacks of a MotionProcessor. Non-trivial: stream with both outcomes in which some frame has a qualifying-pixel count in {count-thresh-1, count-thresh} or a pixel difference in {D, D+1} or a value exactly at temp-thresh.",
 		vfGenC07, vfRunC07)
 }
